@@ -395,3 +395,53 @@ def dispatch_oracle(plain_dump, reg, mode):
         return "OK " + t + " calls=" + ",".join(calls)
     except Fail as f:
         return str(f) + " calls=" + ",".join(calls)
+
+
+# ------------------------------------------------------------------ text block reference
+def textblock_ref(body):
+    """documented algorithm on the bytes after the opening delimiter line: returns the string
+    or None when the block is not terminated.  body = everything after '\"\"\"\\n'."""
+    # split into lines up to the first unescaped closing delimiter
+    lines = []          # (ws, content, has_newline, terminal)
+    i, n = 0, len(body)
+    cur_start = 0
+    while True:
+        # scan one line
+        j = cur_start
+        while j < n and body[j] in b" \t":
+            j += 1
+        ws = body[cur_start:j]
+        k = j
+        term = None
+        while k < n:
+            if body[k:k + 4] == b'\\"""' and k + 3 < n:
+                k += 4
+                continue
+            if body[k:k + 3] == b'"""':
+                term = True
+                break
+            if body[k] == 0x0A:
+                term = False
+                break
+            k += 1
+        if term is None:
+            return None
+        content = body[j:k]
+        lines.append((ws, content, not term, term))
+        if term:
+            end = k + 3
+            break
+        cur_start = k + 1
+        if cur_start >= n:
+            return None
+    inds = [len(ws) for (ws, c, nl, t) in lines if c or t]
+    lwp = min(inds) if inds else 0
+    out = bytearray()
+    for (ws, c, nl, t) in lines:
+        if c:
+            body_ = c.rstrip(b" \t")
+            out += ws[min(lwp, len(ws)):]
+            out += body_.replace(b'\\"""', b'"""')
+        if nl:
+            out += b"\n"
+    return bytes(out), end
